@@ -473,6 +473,22 @@ func runC19(p *core.Prog, r *core.Report) {
 			r.Check(ok, "C19-R3", fmt.Sprintf("Close: return #%d is reached only after close(status) or without a status channel", i), p.Pos(ret.Pos()), "every path to the return closes the channel (after the final send) or found the channel nil", "Close can return without sending the final total and closing the status channel although the channel exists: the consumer waits forever for the end of the stream")
 		}
 	}
+	// every writer the constructor hands out is a new one with a status channel of its own: two owners never share one
+	// channel (one Close would close it under the other, one consumer would take the other's final total)
+	if ctor := p.Func("util/ioutil", "NewProgressWriter"); ctor != nil {
+		cv := p.Inl(ctor)
+		okFresh := true
+		whyF := ""
+		for _, ret := range sx.Returns(cv) {
+			for _, lf := range leaves(ret.Results[0]) {
+				if !sx.IsFreshObject(lf) {
+					okFresh = false
+					whyF = "NewProgressWriter can return " + short(sx.ValPath(lf)) + " at " + p.Pos(ret.Pos()) + ", which is not a writer built by this call"
+				}
+			}
+		}
+		r.Check(okFresh, "C19-R3", "the constructor returns a new writer on every path", p.FuncPos(ctor), "every returned value is a fresh ProgressWriter", whyF+": the caller shares size and status channel with whoever else holds that writer — the final total reaches one of them, the second Close panics")
+	}
 	for _, ref := range sx.FieldRefs(p.ModuleFuncs(), status) {
 		fa, ok := ref.Instr.(*ssa.FieldAddr)
 		if !ok {
